@@ -18,13 +18,13 @@ typedef __int128 I;
 static grid::Run R;
 #if A_SIZE_REAL + 0 == 4
 static const double EPS = FLT_EPSILON, RMIN_ = FLT_MIN;
-static const int BIGSCALE = 60, SMALLSCALE = 20, UNISCALE = 50;
+static const int BIGSCALE = 60, SMALLSCALE = 20, UNISCALE = 50, GRADE = 56;
 #elif A_SIZE_REAL + 0 == 16
 static const double EPS = LDBL_EPSILON, RMIN_ = DBL_MIN;
-static const int BIGSCALE = 200, SMALLSCALE = 20, UNISCALE = 700; // uniform scaling by 2^+-1400: beyond the range of a double, inside a long double's (and order 10 stays inside __float128)
+static const int BIGSCALE = 200, SMALLSCALE = 20, UNISCALE = 700, GRADE = 480; // uniform scaling by 2^+-1400: beyond the range of a double, inside a long double's (and order 10 stays inside __float128)
 #else
 static const double EPS = DBL_EPSILON, RMIN_ = DBL_MIN;
-static const int BIGSCALE = 200, SMALLSCALE = 20, UNISCALE = 300;
+static const int BIGSCALE = 200, SMALLSCALE = 20, UNISCALE = 300, GRADE = 480;
 #endif
 static bool fin(a_real v) { return std::isfinite(v); }                                                   // finite in the library's own real type
 static bool fits(Q q) { return fabsq(q) <= (Q)std::numeric_limits<a_real>::max(); }                    // representable (no overflow) in that type
@@ -494,6 +494,23 @@ static void with_scalings(Mat M, bool symmetric, bool scale, const std::function
                 C.cs[(size_t)k] = ex;
                 f(C);
             }
+        }
+    }
+    // graded scaling: row / column exponents of opposite extreme sizes (a ratio of 2^(1.6*GRADE) between neighbouring rows), so that
+    // individual factor entries are tiny or huge while every product the factorization needs (l*d, l*d*l) stays representable
+    if (M.n >= 2)
+    {
+        static const double PAT[10] = {1.0, -0.625, -0.35, 0.2, 0.8, -0.9, 0.1, -0.45, 0.55, -0.15};
+        for (int sgn : {1, -1})
+        {
+            Mat S = M;
+            for (int k = 0; k < M.n; ++k)
+            {
+                int ex = (int)(sgn * GRADE * PAT[k % 10]);
+                S.rs[(size_t)k] = ex;
+                S.cs[(size_t)k] = symmetric ? ex : (int)(-sgn * GRADE * PAT[(k + 3) % 10] / 2);
+            }
+            f(S);
         }
     }
     // uniform scaling of the whole matrix by 2^(+-2*UNISCALE): every pivot is huge (tiny), so the PRODUCT of the pivots leaves the
